@@ -39,7 +39,10 @@ def run(ctx):
         elif pos == 'set_noeq': c2['set'] = c2['set'] + ['novalue']
         elif pos == 'set_dup': c2['set'] = [s for s in c2['set'] if not s.startswith('x=')] + ['x=1', 'x=2']
         elif pos == 'style_json': c2['style'] = rnd.choice(['csv', 'text']); c2['json_opts'] = ('pretty', False); c2['select'] = c2['select'] or ['.a']; c2['group'] = None
-        elif pos == 'style_text': c2['style'] = rnd.choice(['json', 'csv']); c2['text_opts'] = {'items_sep': ';'}; c2['select'] = c2['select'] or ['.a']; c2['group'] = None
+        elif pos == 'style_text':
+            # one, two or three options that belong to the text style, given with another style
+            allo = [('items_sep', ';'), ('prefix', '<'), ('postfix', '>'), ('null', 'NIL'), ('true', 'yes'), ('false', 'no'), ('missing', 'NA'), ('headers', True), ('escape', ['ab'])]
+            c2['style'] = rnd.choice(['json', 'csv']); c2['text_opts'] = dict(rnd.sample(allo, rnd.choice([1, 1, 2, 3]))); c2['select'] = c2['select'] or ['.a']; c2['group'] = None
         elif pos == 'csv_nosel': c2['style'] = 'csv'; c2['select'] = []; c2['set'] = []; c2['group'] = None
         elif pos == 'csv_group': c2['style'] = 'csv'; c2['select'] = c2['select'] or ['.a']; c2['group'] = rnd.choice(['.k', True])
         bad = mkcase('B%d' % i, c2, data); cases.append(bad); meta[bad['id']] = ('bad', fault)
